@@ -261,7 +261,8 @@ func mutateTree(r *Rng, c TreeCfg, t interface{}, depth int) interface{} {
 	switch x := t.(type) {
 	case map[string]interface{}:
 		m := map[string]interface{}{}
-		for k, v := range x {
+		for _, k := range sortedKeys(x) {
+			v := x[k]
 			switch r.Intn(6) {
 			case 0: // drop
 			case 1:
@@ -465,4 +466,15 @@ func decTree(t interface{}) interface{} {
 		return m
 	}
 	return t
+}
+
+// sortedKeys: every walk that draws random numbers visits map entries in sorted order, so that
+// one seed always generates the same cases
+func sortedKeys(m map[string]interface{}) []string {
+	keys := make([]string, 0, len(m))
+	for k := range m {
+		keys = append(keys, k)
+	}
+	sort.Strings(keys)
+	return keys
 }
